@@ -17,6 +17,8 @@ DIV_FAMILY = {
     "floordiv_ss": lambda i, c, r: (i[0], i[1], "q", 1),
     "floordiv_sc": lambda i, c, r: (i[0], c[0], "q", 1),
     "floordiv_cs": lambda i, c, r: (c[0], i[0], "q", 1),
+    "floordiv_sN": lambda i, c, r: (i[0], c[0], "q", 1),
+    "mod_sN": lambda i, c, r: (i[0], c[0], "r", 1),
     "mod_ss": lambda i, c, r: (i[0], i[1], "r", 1),
     "mod_sc": lambda i, c, r: (i[0], c[0], "r", 1),
     "mod_cs": lambda i, c, r: (c[0], i[0], "r", 1),
@@ -64,7 +66,7 @@ def plan(tier, rnd):
                 items.append(dict(tid=tid, bl=bl, n=400 if not heavy else 250, exhaustive=True))
             for bl in ([4, 5] if heavy else [4, 5, 6]):
                 items.append(dict(tid=tid, bl=bl, n=25 if not heavy else (12 if bl == 4 else 5), exhaustive=False))
-    for kind in ("array_read", "array_write", "array_2d", "compose", "select_lazy"):
+    for kind in ("array_read", "array_write", "array_2d", "compose", "select_lazy", "reuse_after_guard"):
         for bl in (2, 3, 4):
             items.append(dict(tid=kind, bl=bl, n=(25 if tier == "quick" else 150), exhaustive=False))
     rnd.shuffle(items)
@@ -156,6 +158,18 @@ def special_case(kind, bl, rnd):
             c.outer = ot[0]
             return c
         return None
+    if kind == "reuse_after_guard":
+        # the same operation on the same objects twice: first inside a region whose guard may be false, then unguarded.
+        # Anything memoised on the operand objects during the first, slack-absorbed run must not weaken the second.
+        c = Case(kind, "", bl, 0, [], [], "i")
+        a, b, g = rnd.randint(0, h), rnd.randint(0, max(1, min(h, bl - 1))), rnd.choice([0, 0, 1])
+        c.inputs = [a, b, g]
+        c.pre_src = "x0 = PrivVal(I[0])\nx1 = PrivVal(I[1])\nc0 = PrivValBool(I[2])\n"
+        op = rnd.choice(["x0 >> 1", "x0 & x1", "~x0", "x0.to_bits()[1] + 0", "(x0 < x1) + 0", "abs(x0 - x1)", "x0 | x1", "x0 ^ x1",
+                         "LinComb.from_bits(x0.to_bits())", "(x0 == x1) + 0", "x0.check_positive() + 0"])
+        c.op_src = "@guarded(c0)\ndef _b():\n    return %s\n_b()\nr = %s" % (op, op)
+        c.expr = c.op_src
+        return c
     if kind == "select_lazy":
         c = Case(kind, "", bl, 0, [], [], "i")
         a, b, cond = rnd.randint(-h, h), rnd.randint(-h, h), rnd.randint(0, 1)
